@@ -169,7 +169,18 @@ func (x *Exec) workerWith(fresh bool, gomaxprocs int) (*wk.Worker, error) {
 		if gomaxprocs == 0 {
 			gomaxprocs = x.Env.GoMaxProcs
 		}
-		w, err := wk.Start(x.Env.WorkerBin, wk.Env(x.Env.GoRoot, gomaxprocs))
+		wenv := wk.Env(x.Env.GoRoot, gomaxprocs)
+		if x.Sc != nil && x.Sc.Module != nil && x.Sc.Module.Workspace {
+			// workspace mode: the go command finds go.work by itself
+			var keep []string
+			for _, e := range wenv {
+				if e != "GOWORK=off" {
+					keep = append(keep, e)
+				}
+			}
+			wenv = keep
+		}
+		w, err := wk.Start(x.Env.WorkerBin, wenv)
 		if err != nil {
 			return nil, infra("start worker: %v", err)
 		}
@@ -479,7 +490,7 @@ func (x *Exec) doRun(op Op) (*StepRecord, error) {
 		rec.PreSum, rec.HadSum = data, true
 	}
 	rec.Direct = ResolveEntrypoints(m, run.Args.Entrypoint)
-	rec.Local = m.Closure(rec.Direct)
+	rec.Local = m.Local(rec.Direct)
 	for _, pi := range rec.Local {
 		ip := m.ImportPath(pi)
 		rec.Content[ip] = DirFiles(x.pkgDir(pi))
